@@ -44,6 +44,7 @@ def run(ctx: Ctx) -> None:
     handled = mirror.rule_mirror(ctx)
     mirror.rule_guarded_first(ctx)
     rule_target_shared(ctx)
+    rule_index_split(ctx)
     from ..rules import effects
     effects.rule_consumed_tableau(ctx, [TRS])
     tables.rule_vocab(ctx, "vocab.gates", [(STABF, "inverse_circuit")], "TimeReversedSolver._add_gates_from_str", handled)
@@ -53,6 +54,57 @@ def run(ctx: Ctx) -> None:
     solvers.rule_result_provenance(ctx, TRS, "TimeReversedSolver.solve", False)
     ctx.floor("order.mirror", 25)
     ctx.floor("order.frontinsert", 6)
+
+
+def rule_index_split(ctx: Ctx) -> None:
+    """index.split: the solver's working tableau lists the photons first and the emitters after them, so tableau position i belongs to
+    photon i when i < n_photon and to emitter i - n_photon otherwise.  _add_one_qubit_gate translates a tableau position into
+    (reg_type, register) with exactly this split; the comparison is evaluated at the positions n_photon - 1, n_photon, n_photon + 1 and
+    the register expressions are compared as linear forms."""
+    import ast as _ast
+    from .. import linear
+    from ..core import norm as _norm
+    repo = ctx.repo
+    m = repo.module(TRS)
+    fn = repo.anchor(TRS, "TimeReversedSolver._add_one_qubit_gate")
+    ctx.touch(m, fn)
+    idx = func_params(fn)[3]
+    split = next((i for i in fn.body if isinstance(i, _ast.If) and idx in _norm(i.test) and "n_photon" in _norm(i.test)), None)
+    if split is None or not isinstance(split.test, _ast.Compare) or len(split.test.ops) != 1:
+        raise AnalysisError("_add_one_qubit_gate: the photon / emitter split was not found")
+    t = split.test
+    d = linear.sub(linear.lin(t.left) or {"?": 1}, linear.lin(t.comparators[0]) or {"?": 1})
+    NP = next((k for k in d if k.endswith("n_photon")), None)
+    if NP is None or set(k for k, v in d.items() if v) - {idx, NP, ""} or d.get(idx, 0) not in (1, -1) or d.get(NP, 0) != -d.get(idx, 0):
+        raise AnalysisError(f"_add_one_qubit_gate: `{short(t)}` is not a comparison of the position with n_photon")
+
+    def taken(off):   # value of the test at index = n_photon + off
+        val = d.get(idx, 0) * off + d.get("", 0)
+        return {_ast.Gt: val > 0, _ast.GtE: val >= 0, _ast.Lt: val < 0, _ast.LtE: val <= 0, _ast.Eq: val == 0, _ast.NotEq: val != 0}[type(t.ops[0])]
+
+    def arm_values(stmts):
+        out = {}
+        for a in stmts:
+            if isinstance(a, _ast.Assign) and len(a.targets) == 1 and isinstance(a.targets[0], _ast.Name):
+                out[a.targets[0].id] = a.value
+        return out
+    bad = []
+    for off, want_type, want_reg in ((-1, "p", {idx: 1}), (0, "e", {idx: 1, NP: -1}), (1, "e", {idx: 1, NP: -1})):
+        vals = arm_values(split.body if taken(off) else split.orelse)
+        tys = [v for v in vals.values() if isinstance(v, _ast.Constant) and v.value in ("e", "p")]
+        regs = [v for v in vals.values() if not isinstance(v, _ast.Constant)]
+        if len(tys) != 1 or len(regs) != 1:
+            raise AnalysisError("_add_one_qubit_gate: arms of the split do not assign (reg_type, register)")
+        where = f"position n_photon{off:+d}" if off else "position n_photon"
+        if tys[0].value != want_type:
+            bad.append(f"{where} is treated as a{'n emitter' if tys[0].value == 'e' else ' photon'}")
+        elif linear.clean(linear.lin(regs[0]) or {"?": 1}) != want_reg:
+            bad.append(f"{where}: the register is `{short(regs[0])}`, expected {linear.show(want_reg)}")
+    if bad:
+        ctx.fail("index.split", m, split, "_add_one_qubit_gate: " + "; ".join(dict.fromkeys(bad)) + " (photons occupy tableau positions 0 .. n_photon - 1, emitters follow)",
+                 func="TimeReversedSolver._add_one_qubit_gate", construct="_add_one_qubit_gate: position -> (reg_type, register)")
+    else:
+        ctx.ok("index.split", m, split, what="i < n_photon -> ('p', i); otherwise ('e', i - n_photon)")
 
 
 def rule_target_shared(ctx: Ctx) -> None:
@@ -83,6 +135,8 @@ def rule_target_shared(ctx: Ctx) -> None:
 
 
 KNOCKOUTS = [
+    Knockout("one-qubit-gate-split-strict", TRS, sub_once("        if index >= self.n_photon:\n            reg_type = \"e\"", "        if index > self.n_photon:\n            reg_type = \"e\""), "index.split", "position n_photon"),
+    Knockout("one-qubit-gate-emitter-register-sign", TRS, sub_once("            reg = index - self.n_photon\n", "            reg = self.n_photon - index\n"), "index.split", "register is"),
     Knockout("target-converted-on-a-copy", TRS, sub_once("            target.convert_representation(\"s\")\n", "            target = target.copy()\n            target.convert_representation(\"s\")\n            self.target = target\n"), "target.shared", "copy of the target"),
     Knockout("consumed-tableau-no-copy", TRS, sub_once("_, inverse_circuit = sfs.inverse_circuit(stabilizer_tableau.copy())", "_, inverse_circuit = sfs.inverse_circuit(stabilizer_tableau)"),
              "effect.consumed-tableau", "inverse_circuit"),
